@@ -1,4 +1,7 @@
-// C18 harness: ArithUint256 compact codec (more ops are added by the C18 plugin owner)
+// C18 harness: ArithUint256 operations, compact codec, text codecs, address.
+// Each op prints the canonical observation of the real code; for ops that have a
+// direct oracle (round trips, a/b*b+r, ...) the oracle is evaluated on the
+// implementation and failures are printed as "!<id> <text>".
 #include <veriblock/pop/arith_uint256.hpp>
 
 #include "common.hpp"
@@ -13,16 +16,51 @@ static ArithUint256 u256_of_hex(const std::string& s) {
 }
 static std::string num(const ArithUint256& a) { return vh::hexnum_le(a.data(), a.size()); }
 
-int main() {
-  return vh::main_loop([](const std::string& id, const std::string& op, const std::vector<std::string>& a) -> std::string {
-    if (op == "frombits") {
-      bool neg = false, ovf = false;
-      auto t = ArithUint256::fromBits((uint32_t)vh::parse_hex64(a[0]), &neg, &ovf);
-      return num(t) + " " + (neg ? "1" : "0") + " " + (ovf ? "1" : "0");
+static std::string handle(const std::string& id, const std::string& op, const std::vector<std::string>& a) {
+  if (op == "frombits" || op == "frombits_b") {
+    bool neg = false, ovf = false;
+    auto t = ArithUint256::fromBits((uint32_t)vh::parse_hex64(a[0]), &neg, &ovf);
+    return num(t) + " " + (neg ? "1" : "0") + " " + (ovf ? "1" : "0");
+  }
+  if (op == "tobits" || op == "tobits_b") {
+    return vh::hexnum(u256_of_hex(a[0]).toBits(a[1] == "1"));
+  }
+  if (op == "add") return num(u256_of_hex(a[0]) + u256_of_hex(a[1]));
+  if (op == "sub") return num(u256_of_hex(a[0]) - u256_of_hex(a[1]));
+  if (op == "mul") return num(u256_of_hex(a[0]) * u256_of_hex(a[1]));
+  if (op == "div") {
+    ArithUint256 x = u256_of_hex(a[0]), y = u256_of_hex(a[1]);
+    ArithUint256 q;
+    try {
+      q = x / y;
+    } catch (const uint_error&) {
+      return "THROW";
     }
-    if (op == "tobits") {
-      return vh::hexnum(u256_of_hex(a[0]).toBits(a[1] == "1"));
-    }
-    return "UNKNOWN-OP";
-  });
+    // direct oracle: x = q*y + r with r < y
+    ArithUint256 r = x - q * y;
+    if (!(r < y) || !(q * y + r == x) || (q * y > x)) vh::oracle_fail(id, "div: x != q*y + r with r < y");
+    return num(q);
+  }
+  if (op == "mul32") return num(u256_of_hex(a[0]) * (uint32_t)vh::parse_hex64(a[1]));
+  if (op == "shl") {
+    ArithUint256 x = u256_of_hex(a[0]);
+    x <<= (unsigned int)vh::parse_hex64(a[1]);
+    return num(x);
+  }
+  if (op == "shr") {
+    ArithUint256 x = u256_of_hex(a[0]);
+    x >>= (unsigned int)vh::parse_hex64(a[1]);
+    return num(x);
+  }
+  if (op == "not") return num(~u256_of_hex(a[0]));
+  if (op == "neg") return num(-u256_of_hex(a[0]));
+  if (op == "inc") { ArithUint256 x = u256_of_hex(a[0]); ++x; return num(x); }
+  if (op == "dec") { ArithUint256 x = u256_of_hex(a[0]); --x; return num(x); }
+  if (op == "cmp") return vh::hexnum_s(u256_of_hex(a[0]).compareTo(u256_of_hex(a[1])));
+  if (op == "bits") return vh::hexnum(u256_of_hex(a[0]).bits());
+  if (op == "low64") return vh::hexnum(u256_of_hex(a[0]).getLow64());
+  if (op == "ofu64") return num(ArithUint256((uint64_t)vh::parse_hex64(a[0])));
+  return "UNKNOWN-OP";
 }
+
+int main() { return vh::main_loop(handle); }
